@@ -32,11 +32,14 @@ fn main() {
     let code = match part {
         "C14seq" => run(part, seq::prog_strategy(), n, seed, |p| seq::run_prog(p).map(|_| ())),
         "C15kinds" => run(part, kinds::case_strategy(), n, seed, kinds::run_case),
-        "C12mix" | "C15mix" => run(part, mixseq::case_strategy(), n, seed, |c| mixseq::run_case(c).map(|_| ())),
+        "C01mix" | "C02mix" | "C12mix" | "C15mix" => run(part, mixseq::case_strategy(), n, seed, |c| mixseq::run_case(c).map(|_| ())),
         "C16seq" => run(part, cacheseq::case_strategy(), n, seed, |c| cacheseq::run_case(c).map(|_| ())),
         "C17seq" => run(part, accessseq::case_strategy(), n, seed, |c| accessseq::run_case(c).map(|_| ())),
         "C20serde" => run(part, serdechk::case_strategy(), n, seed, serdechk::run_case),
         _ => 2,
     };
-    std::process::exit(code);
+    // return instead of process::exit: Miri checks for leaked memory only when main returns
+    if code != 0 {
+        std::process::exit(code);
+    }
 }
